@@ -123,9 +123,61 @@ def worker_main():
     keep = [bytearray(137 * (i % 11 + 1)) for i in range(100000)] if junk else None
     json.dump(table(L), sys.stdout)
 
+# ----------------------------------------------------------------------------- history independence of deterministic calls
+def call_alphabet():
+    """per op family a handful of near-miss configurations (same op, one argument / shape / dtype changed): the pairs where an
+    incompletely keyed cache or a shared scratch buffer would bite"""
+    from mc import catalog_tensor as ct, catalog_nn as cn
+    fams = {}
+    for fam, cases in (("t", ct.cases("quick", "grad")), ("n", cn.cases("quick", "grad"))):
+        for c in cases:
+            if c["op"] == "dropout": continue
+            fams.setdefault((fam, c["op"], c.get("form", "fn")), []).append(c)
+    out = []
+    for key, cs in sorted(fams.items()):
+        pick = cs[:: max(1, len(cs) // 5)][:5] + cs[-1:]
+        out.append({"kind": "pairs", "family": list(key), "letters": pick})
+    return out
+
+def _run_letter(letter, dt):
+    from mc import catalog_tensor as ct, catalog_nn as cn, values
+    fam = cn if "form" in letter else ct
+    arrays = fam.arrays_for(letter, dtype=dt)
+    diff = cn.diff_idx(letter, arrays) if fam is cn else list(range(len(arrays)))
+    out, ts = fam.run_lib(letter, arrays, [i in diff for i in range(len(arrays))])
+    res = [np.asarray(out.data).copy()]
+    if out.requires_grad:
+        out.backward(harness.load().Tensor(np.asarray(values.dense_g(out.shape), dtype=out.dtype if out.dtype.kind == "f" else np.float64)))
+        res += [np.asarray(ts[i].grad.data).copy() for i in diff if ts[i].grad is not None]
+    return _dig(res)
+
+def judge_pairs(case):
+    """for all ordered pairs (A, B) of letters x dtypes: digest(B after A in one process) == digest(B alone in a fresh process)"""
+    from mc import parallel
+    letters = [(l, dt) for l in case["letters"] for dt in (np.float32, np.float64)]
+    def safe(l, dt):
+        try: return _run_letter(l, dt)
+        except Exception as e: return "raise:" + type(e).__name__
+    alone = [parallel.fork_call(lambda l=l, dt=dt: safe(l, dt)) for l, dt in letters]
+    viol = []; npairs = 0
+    for ia, (la, dta) in enumerate(letters):
+        def after_a():
+            safe(la, dta)
+            return [safe(lb, dtb) for lb, dtb in letters]
+        got = parallel.fork_call(after_a)
+        for ib, g in enumerate(got):
+            npairs += 1
+            if g != alone[ib] and not viol:
+                lb, dtb = letters[ib]
+                viol.append({"kind": f"{case['family'][1]}:result-depends-on-earlier-call",
+                             "detail": f"{lb} ({np.dtype(dtb).name}) gives other bits after {la} ({np.dtype(dta).name}) ran in the same process than in a fresh process"})
+    return {"nontrivial": True, "outcome": "ok", "violations": viol, "pairs": npairs}
+
 def judge(case):
     sg = harness.load()
     viol = []
+    if case["kind"] == "pairs":
+        return judge_pairs(case)
     prog = case["prog"]
     if case["kind"] == "rerun":
         d = {}
@@ -159,7 +211,8 @@ def run(tier, seed):
     harness.load()
     import synapgrad.nn.utils.data
     progs = programs(L)
-    cases = [{"kind": "rerun", "prog": p} for p in progs] + [{"kind": "controlled", "prog": [l]} for l in LETTERS]
+    pair_cases = call_alphabet()
+    cases = [{"kind": "rerun", "prog": p} for p in progs] + [{"kind": "controlled", "prog": [l]} for l in LETTERS] + pair_cases
     r = engine.run_cases(cases, judge)
     viols = r["violations"]
     # (b) fresh interpreters: hash seeds x allocation layouts
@@ -189,12 +242,14 @@ def run(tier, seed):
         viols.append({"kind": "fixed-program:depends-on-repetition", "detail": f"digests of 5 repetitions: {base['fixed']}", "case": {"kind": "fixed"}})
     cov = {"states": len(progs), "transitions": sum(len(p) for p in progs) * len(SEEDS) * 2, "traces_validated_against_impl": r["evaluations"] + nproc_ok * len(base),
            "evaluations": r["evaluations"], "distinct_nontrivial": r["distinct_nontrivial"], "samples": r["samples"], "exhaustive": True,
-           "fresh_interpreters": nproc_ok, "digests_per_interpreter": len(base),
+           "fresh_interpreters": nproc_ok, "digests_per_interpreter": len(base), "history_independence_families": len(pair_cases),
+           "history_independence_pairs": sum((2 * len(c["letters"])) ** 2 for c in pair_cases),
            "rule": f"all {len(progs)} programs of length <= {L} over {len(LETTERS)} random-consuming letters x seeds {SEEDS}: run / re-seed / re-run in "
                    f"process (bitwise digests of every produced array, gradient and parameter); programs of length <= {Lw} again in {len(envs)} fresh "
                    "interpreters with PYTHONHASHSEED in {0,1,2,4242,...} with and without 10^5 junk allocations (identical digest tables); a fixed "
                    "conv/pool/log_softmax forward+backward repeated 5 times; each letter under the scripted random source twice (no draw bypasses "
-                   "the generators manual_seed seeds); states = programs, transitions = letter executions"}
+                   "the generators manual_seed seeds); history independence: for every op family of both catalogues, all ordered pairs (A, B) over ~6 "
+                   "near-miss configurations x 2 dtypes - B after A in one process must give the bits B gives in a fresh process; states = programs, transitions = letter executions"}
     return {"level": "model_checking", "violations": viols, "coverage": cov,
             "assumptions": ["cross-machine reproducibility (BLAS builds) is out of reach in this sandbox"]}
 
